@@ -367,11 +367,72 @@ class CFG:
     return after
 
   # ------------------------------------------------------------- queries
+  def _flag_names(self):
+    """Locals that are tested as a bare name (`if flag:` / `if not flag:`):
+    their truth value is fixed between two assignments, so two tests of the
+    same flag cannot take opposite branches on one path."""
+    fl = getattr(self, '_flags', None)
+    if fl is None:
+      fl = {n.ast.id for n in self.nodes if n.kind == 'test' and isinstance(n.ast, ast.Name)}
+      self._flags = fl
+    return fl
+
   def reach(self, start: Node, blocked_nodes: Iterable[int] = (),
             blocked_edges: Iterable[Tuple[int, int, str]] = (),
             follow_exc: bool = True):
+    """Nodes reachable from start.  Path-sensitive on boolean flag locals
+    only: a path that takes the true branch of `if flag:` and later the false
+    branch of another `if flag:` with no assignment to `flag` in between is
+    infeasible and not followed (the one correlation the repository's code
+    relies on: `should_insert`, `copied`, `has_error` ...).  Returns the set
+    of reachable node ids and a parent map for witnesses."""
     blocked_nodes = set(blocked_nodes)
     blocked_edges = set(blocked_edges)
+    flags = self._flag_names()
+    if not flags:
+      return self._reach_plain(start, blocked_nodes, blocked_edges, follow_exc)
+    from sa import dataflow as _D
+    seen = {start.id}
+    parent: Dict[int, int] = {}
+    seen_states = {(start.id, ())}
+    q = [(start, ())]
+    budget = 200000
+    while q:
+      n, st = q.pop()
+      budget -= 1
+      if budget < 0:
+        # state explosion: fall back to the path-insensitive answer (superset)
+        return self._reach_plain(start, blocked_nodes, blocked_edges, follow_exc)
+      known = dict(st)
+      for nm, v in _D.node_defs(n).items():
+        if nm in flags:
+          if isinstance(v, ast.Constant) and isinstance(v.value, bool):
+            known[nm] = v.value
+          else:
+            known.pop(nm, None)
+      for m, lab in n.succ:
+        if not follow_exc and lab == 'exc' and n.kind not in ('pad', 'raisestmt'):
+          continue
+        if m.id in blocked_nodes or (n.id, m.id, lab) in blocked_edges:
+          continue
+        k2 = known
+        if n.kind == 'test' and isinstance(n.ast, ast.Name) and n.ast.id in flags and lab in ('true', 'false'):
+          val = lab == 'true'
+          if n.ast.id in known and known[n.ast.id] != val:
+            continue
+          k2 = dict(known)
+          k2[n.ast.id] = val
+        st2 = tuple(sorted(k2.items()))
+        if (m.id, st2) in seen_states:
+          continue
+        seen_states.add((m.id, st2))
+        if m.id not in seen:
+          seen.add(m.id)
+          parent[m.id] = n.id
+        q.append((m, st2))
+    return seen, parent
+
+  def _reach_plain(self, start, blocked_nodes, blocked_edges, follow_exc):
     seen = {start.id}
     parent: Dict[int, int] = {}
     q = [start]
